@@ -15,7 +15,7 @@
     written records to the accessors (parsing of the tagged TOC) and the builder-side normalisation (add_doc) being
     composed into one end-to-end statement — both are covered by the byte-exact correspondence and the
     model-internal read-back check of the runner on every generated shard. *)
-From ZV Require Import Lib.Base Lib.Varint Generated.FormatConsts Model.Format Model.Btree Proofs.FormatCodec Proofs.Btree Proofs.FormatLayout Proofs.BtreeGet.
+From ZV Require Import Lib.Base Lib.Varint Generated.FormatConsts Model.Format Model.Btree Proofs.FormatCodec Proofs.Btree Proofs.FormatLayout Proofs.BtreeGet Model.DocCheck Proofs.DocCheck.
 Open Scope N_scope.
 
 (** binary.Uvarint (binary.PutUvarint x ++ rest) = (x, bytes consumed) for every uint64. *)
@@ -128,6 +128,27 @@ Theorem C09_document_readback_partial : forall next b o i name content secs,
 Proof. exact document_readback. Qed.
 Print Assumptions C09_document_readback_partial.
 
+(** DocChecker_spec: DocChecker.Check is stateful in the Go code (one checker per Builder, its trigram map is reused);
+    in the model the map is explicit state, and for EVERY state left behind by earlier documents the verdict of a
+    document is the stateless verdict [doc_check] — a function of that document and the options only. *)
+Theorem C09_DocChecker_spec : forall st content max allow,
+  fst (check_st st content max allow) = doc_check content max allow.
+Proof. exact check_st_state_independent. Qed.
+Print Assumptions C09_DocChecker_spec.
+
+(** C09_skip_present: every document of EVERY sequence added through one Builder (size limit, LargeFiles allow-list,
+    reused DocChecker, any initial checker state) gets exactly the verdict it would get alone; an accepted document
+    is stored with its own content (a skipped one with the NOT-INDEXED marker, see doc_content). *)
+Theorem C09_skip_present : forall docs st sizeMax max,
+  check_seq st sizeMax max docs = map (fun d => builder_skip sizeMax max (fst d) (snd d)) docs.
+Proof. exact check_seq_pointwise. Qed.
+Print Assumptions C09_skip_present.
+
+Theorem C09_accepted_content : forall name content syms meta brs sub, has_nul content = false ->
+  doc_content (mkDocIn name content SKIP_NONE true syms meta brs sub) = content.
+Proof. exact accepted_content. Qed.
+Print Assumptions C09_accepted_content.
+
 (** the constants compiled into /repo satisfy the hypotheses of the b-tree theorems (regenerated every run) *)
 Example C09_consts_ok : btreeBucketSize = (2 * (btreeBucketSize / 2))%nat /\ (1 <= btreeBucketSize / 2)%nat /\ N.of_nat (btreeBucketSize / 2) * 8 < W32 /\ (2 <= btreeV)%nat
                         /\ ngramEncoding = 8 /\ runeOffsetFrequency = 100.
@@ -151,6 +172,13 @@ Example C09_nonvacuous_document :   (* a two-document builder state obtained wit
   /\ b_docSections b = [[(0,3)]; []]
   /\ nlen (write_shard false b (mkOpaque [] [] [] None [123;125] [123;125])) = 1358.
 Proof. vm_compute. repeat split; reflexivity. Qed.
+
+Example C09_nonvacuous_docchecker :   (* TrigramMax 3: "abcdefgh" has 6 distinct trigrams -> rejected; "abababababab" has 2 -> kept,
+                                         also right after the rejected one (the reused map does not matter) *)
+  let many := [97;98;99;100;101;102;103;104] in let rep := [97;98;97;98;97;98;97;98;97;98;97;98] in
+  check_seq [] 100 3 [(many, false); (rep, false); ([97], false); (many, true)] = [SKIP_TOO_MANY; SKIP_NONE; SKIP_TOO_SMALL; SKIP_NONE]
+  /\ snd (check_st [] many 3 false) <> [].
+Proof. vm_compute. split; [reflexivity|discriminate]. Qed.
 
 Fixpoint upto (n : nat) (k : N) : list N := match n with O => [] | S m => k :: upto m (k + 3) end.
 Example C09_nonvacuous_btree :   (* bucketSize 4, v 2, 23 keys: leaf, inner and root splits; key 17 (= 5 + 3*4... position 4) *)
